@@ -93,14 +93,15 @@ Print Assumptions C05_alloc_by_declared_count_refuted.
 
 (* parse_cost_partial: what does hold -- the object graph the parser builds (every list cell, the
    packpositions included) is linear in the input and the limit; with every declared count within
-   the limit and the limit within the input size it is linear in the input *)
+   the limit and the limit within the input size it is linear in the input (wf_bytes: the input consists
+   of bytes; a negative "number" could otherwise stand for a sub-stream count) *)
 Theorem C05_parse_cost_partial : forall lim bs h,
-  parse_header lim bs = Ok h -> header_size h <= 17 * zlen bs + 5 * Z.max lim 0 + 1.
+  wf_bytes bs = true -> parse_header lim bs = Ok h -> header_size h <= 17 * zlen bs + 5 * Z.max lim 0 + 1.
 Proof. exact parse_cost_partial. Qed.
 Print Assumptions C05_parse_cost_partial.
 
 Theorem C05_parse_cost_linear : forall lim bs h,
-  lim <= zlen bs -> parse_header lim bs = Ok h -> header_size h <= 22 * zlen bs + 1.
+  wf_bytes bs = true -> lim <= zlen bs -> parse_header lim bs = Ok h -> header_size h <= 22 * zlen bs + 1.
 Proof. exact parse_cost_linear. Qed.
 Print Assumptions C05_parse_cost_linear.
 
